@@ -1,7 +1,7 @@
 """Event-level harnesses: arbitrary reader event streams (not only well-formed documents). C08 (errors reported faithfully) and C07 (no panic)."""
 import z3, json
 from .harness import Harness, AssignmentModel
-from .interp import RStr, RBytes, RStruct, REnum, RVec, Ok, Err, UNIT, Frags
+from .interp import zstr, RStr, RBytes, RStruct, REnum, RVec, Ok, Err, UNIT, Frags
 from . import xmlmodel as X
 from .xmlmodel import AND, OR, NOT, IMPL, IFF, SEQ, Entry
 from .gate import mk_options
@@ -25,7 +25,7 @@ class EventScript:
         self.name_u8 = [B('nu%d' % i) if utf8 else True for i in range(n)]
         self.text_u8 = [B('tu%d' % i) if utf8 else True for i in range(n)]
         self.pos = [z3.BitVec(tag + 'pos%d' % i, 64) for i in range(n)]; self.consts += self.pos
-        self.attrs = [[{'present': B('a%d_%d_p' % (i, j)), 'err': B('a%d_%d_err' % (i, j)) if attr_err else False, 'key': S('a%d_%d_k' % (i, j), names), 'u8': B('a%d_%d_u' % (i, j)) if utf8 else True}
+        self.attrs = [[{'present': B('a%d_%d_p' % (i, j)), 'err': B('a%d_%d_err' % (i, j)) if attr_err else False, 'dup': B('a%d_%d_dup' % (i, j)) if attr_err else False, 'key': S('a%d_%d_k' % (i, j), names), 'u8': B('a%d_%d_u' % (i, j)) if utf8 else True}
                        for j in range(attrs)] for i in range(n)]
         if well_nested:
             # what a default-configured reader (check_end_names) guarantees: an End event only closes an open Start
@@ -69,7 +69,9 @@ def _resolve_symstart(m, e):
             tag = 'ev%d.attr%d' % (i, j)
             if a['err'] is not False and m.branch(a['err']):
                 txt = 'attr error ev%d.%d' % (i, j)
-                items.append(Err(RStruct('AttrError', {'disp': txt, 'dbg': txt, 'tag': tag})))
+                f = {'disp': txt, 'dbg': txt, 'tag': tag}
+                if m.branch(a['dup']): f['dup_key'] = RBytes(a['key'], a['u8'], tag)      # a Duplicated error (invisible to an unchecked iterator)
+                items.append(Err(RStruct('AttrError', f)))
             else:
                 items.append(Ok(RStruct('Attribute', {'key': RBytes(a['key'], a['u8'], tag), 'value': RBytes(z3.String('val%d_%d' % (i, j)), True, 'v')})))
     b = X.bs(es.name[i], [], 'ev%d' % i, es.name_u8[i])
@@ -87,16 +89,24 @@ def xml_of_events(am, es):
     for i in range(L):
         k = KINDS[am.eval(es.k[i]).as_long()]
         if k in ('Start', 'Empty'):
-            name = am.eval(es.name[i]).as_string().encode()
+            name = zstr(am.eval(es.name[i])).encode()
             if not am.truth(es.name_u8[i]): name += b'\xff'
             out += b'<' + name
+            emitted = []
             for j, a in enumerate(es.attrs[i]):
                 if am.truth(a['present']):
-                    key = am.eval(a['key']).as_string().encode()
+                    key = zstr(am.eval(a['key'])).encode()
                     if not am.truth(a['u8']): key += b'\xfe'
-                    if am.truth(a['err']): out += b' ' + key + b'=1'          # unquoted value: AttrError
-                    else: out += b' ' + key + (b'%d' % j) + b'="v"'
-                    exact = False if not am.truth(a['err']) else exact          # key gets a suffix to keep keys unique -> names differ from the script
+                    if a['err'] is not False and am.truth(a['err']):
+                        if am.truth(a['dup']):
+                            # a duplicated attribute: repeat an earlier key if there is one, else write the key twice
+                            if emitted: out += b' ' + emitted[0] + b'="v"'
+                            else: out += b' ' + key + b'="v" ' + key + b'="v"'
+                        else: out += b' ' + key + b'=1'          # unquoted value: a malformed attribute
+                        break
+                    k2 = key + (b'%d' % j); emitted.append(k2)
+                    out += b' ' + k2 + b'="v"'
+                    exact = False          # keys get a suffix to stay unique -> names differ from the script
             out += b'/>' if k == 'Empty' else b'>'
         elif k == 'End': out += b'</x>'; exact = False
         elif k == 'Text': out += b't' + (b'' if am.truth(es.text_u8[i]) else b'\xff')
